@@ -407,6 +407,31 @@ touched_restore(struct tab *tb, uint32_t m)
             register_untouch(&tb->t, (RegisterHandle)i);
 }
 
+/* was the armed callback fault (cb_fail_*_at, counted from the last arming)
+ * reached by the calls made since? */
+static inline bool
+tab_fault_reached(const struct tab *tb)
+{
+    return (tb->cb_fail_read_at >= 0 && tb->cb_reads > tb->cb_fail_read_at)
+        || (tb->cb_fail_write_at >= 0 && tb->cb_writes > tb->cb_fail_write_at);
+}
+
+/* public probe (zero-length block read at the first area's base): does the
+ * table answer as one that is out of service?  No statement mentions driver
+ * I/O errors: a library that takes the table out of service after an area
+ * callback answered IO_ERROR (fail-safe latch) keeps C01/C02/C05 true, so a
+ * history whose injected fault was reached is only continued when this probe
+ * says the table is still in service.  Call it with the faults disarmed. */
+static inline bool
+tab_out_of_service(struct tab *tb)
+{
+    RegisterAtom *buf = mc_exact(sizeof(RegisterAtom));
+    buf[0] = 0;
+    const RegisterAccess a = register_block_read(&tb->t, tb->s.na > 0 ? tb->s.a[0].base : 0, 0, buf);
+    free(buf);
+    return a.code == REG_ACCESS_UNINITIALISED;
+}
+
 /* an address as text: decimal, hexadecimal from 2^24 on (tables near the top
  * of the address space); rotates through a few static buffers */
 static const char *
@@ -485,11 +510,24 @@ flat_write_verdict(const struct tab *t, uint32_t addr, uint32_t n, const Registe
         if (!ref_storable(rs->type, bits)) {
             if (v->invalid < 0)
                 v->invalid = first;
-            /* an infinite or subnormal pattern is still an ordered value: when
-             * it also lies outside the register's constraint both classes apply
-             * (the statement fixes no precedence between them).  NaN compares
-             * with nothing: undecodable only. */
-            if (!ref_is_nan(rs->type, bits) && !ref_constraint(rs, ref_from_bits(rs->type, bits)) && v->range < 0)
+            /* "out-of-range" applies besides "invalid" (the statement fixes no
+             * precedence between the classes, nor the order in which an
+             * implementation decodes and judges):
+             *   - an infinite or subnormal pattern is still an ordered value:
+             *     when it lies outside the register's min/max/range;
+             *   - a NaN lies inside no min/max/range interval;
+             *   - an always-fail register is out of range for every content;
+             *   - what a user predicate answers on an undecodable pattern is
+             *     open (it may never be asked, or may refuse it). */
+            bool also_range;
+            switch (rs->ckind) {
+            case K_NONE: also_range = false; break;
+            case K_FAIL: case K_CB: also_range = true; break;
+            default: /* min, max, range */
+                also_range = ref_is_nan(rs->type, bits) || !ref_constraint(rs, ref_from_bits(rs->type, bits));
+                break;
+            }
+            if (also_range && v->range < 0)
                 v->range = first;
         } else if (!ref_constraint(rs, ref_from_bits(rs->type, bits))) {
             if (v->range < 0)
